@@ -1221,5 +1221,94 @@ pub fn c12(ctx: &Ctx) -> Report {
             }
         }
     }
+    c12_concurrent_opens(ctx, &mut rep);
     rep
+}
+
+/// Tables are OPENED concurrently on one shared cache: every thread opens its own image (same keys and
+/// layout, its own values) again and again, records the cache id of each handle and reads through it.
+/// Judge: all ids handed out are pairwise distinct and every result is the thread's own data.
+fn c12_concurrent_opens(ctx: &Ctx, rep: &mut Report) {
+    let nthreads = 8usize;
+    let rounds = if ctx.thorough() { 30000 } else { 4000 };
+    let base = Options::default().with_cache_capacity(8);
+    let mut imgs = vec![];
+    for t in 0..nthreads {
+        let cfg = WCfg { cmp: CmpKind::Bytewise, block_size: 64, restart: 4, snappy: false, pol: PolKind::Bloom(10) };
+        let es: Vec<(Vec<u8>, Vec<u8>)> = (0..12).map(|i| (format!("key{:02}", i).into_bytes(), format!("value{:02}-of-table-{:02}", i, t).into_bytes())).collect();
+        let out = tb_build_impl(&cfg, &es, &[]);
+        imgs.push(Arc::new(out.received));
+    }
+    let (tx, rx) = std::sync::mpsc::channel();
+    for t in 0..nthreads {
+        let img = imgs[t].clone();
+        let base = base.clone();
+        let tx = tx.clone();
+        std::thread::spawn(move || {
+            let out = guarded(|| {
+                let mut ids = Vec::with_capacity(rounds);
+                let mut wrong = vec![];
+                for r in 0..rounds {
+                    let tb = match Table::new(base.clone(), Box::new(img.as_ref().clone()), img.len()) {
+                        Ok(tb) => tb,
+                        Err(e) => {
+                            wrong.push(format!("round {}: open failed: {:?}", r, e.code));
+                            continue;
+                        }
+                    };
+                    ids.push(tb.verif_cache_id());
+                    let i = r % 12;
+                    let want = format!("value{:02}-of-table-{:02}", i, t).into_bytes();
+                    match tb.get(format!("key{:02}", i).as_bytes()) {
+                        Ok(Some(v)) if v == want => {}
+                        other => {
+                            if wrong.len() < 5 {
+                                wrong.push(format!("round {}: get(key{:02}) = {:?}, expected the value of table {}", r, i, other.map(|x| x.map(|v| String::from_utf8_lossy(&v).to_string())).map_err(|e| e.code), t))
+                            }
+                        }
+                    }
+                }
+                (ids, wrong)
+            });
+            let _ = tx.send((t, out));
+        });
+    }
+    drop(tx);
+    let deadline = std::time::Instant::now() + std::time::Duration::from_secs(120);
+    let mut all_ids: Vec<(u64, usize)> = vec![];
+    let mut received = 0;
+    while received < nthreads {
+        let left = deadline.saturating_duration_since(std::time::Instant::now());
+        match rx.recv_timeout(left) {
+            Ok((t, Ok((ids, wrong)))) => {
+                received += 1;
+                for w in wrong {
+                    rep.judge_fail(J::obj(vec![("what", J::s("a table opened concurrently with others on a shared cache returns data that is not its own")), ("thread", J::N(t as i64)), ("detail", J::s(&w)), ("rerun", J::s("threads open 8 tables (same layout, own values) concurrently on one cache"))]));
+                }
+                all_ids.extend(ids.into_iter().map(|i| (i as u64, t)));
+            }
+            Ok((t, Err(_))) => {
+                received += 1;
+                rep.judge_fail(J::obj(vec![("what", J::s("a thread opening tables concurrently panicked")), ("thread", J::N(t as i64))]));
+            }
+            Err(_) => break,
+        }
+    }
+    rep.case(&format!("concurrent opens: {} threads x {} opens on one cache", nthreads, rounds), true);
+    rep.count_n("concurrent_opens", all_ids.len() as u64);
+    if received < nthreads {
+        rep.judge_fail(J::obj(vec![("what", J::s("threads opening tables concurrently did not finish within 120 s")), ("finished", J::N(received as i64))]));
+        return;
+    }
+    all_ids.sort();
+    let mut dups = 0;
+    for w in all_ids.windows(2) {
+        if w[0].0 == w[1].0 {
+            dups += 1;
+            if dups <= 3 {
+                rep.judge_fail(J::obj(vec![("what", J::s("two table handles opened on one cache received the same cache id")), ("id", J::N(w[0].0 as i64)), ("threads", J::s(&format!("{} and {}", w[0].1, w[1].1)))]));
+            }
+        }
+    }
+    rep.count_n("duplicate_cache_ids", dups);
 }
